@@ -3,7 +3,7 @@
     ([parse_bytes il id src] = NewParser(src).Parse() with Defs(), fuel = length src + 4). *)
 From Coq Require Import ZArith List String.
 From CanVerif Require Import Dbc.Ast Dbc.Scanner Dbc.ScanLemmas Dbc.Parser Dbc.Printer Dbc.Witness Dbc.RoundTrip
-  Dbc.Totality Dbc.Locality.
+  Dbc.Totality Dbc.Locality Dbc.Validate.
 Import ListNotations.
 Open Scope Z_scope.
 
@@ -20,6 +20,16 @@ Theorem C12_parse_total : forall (il id : Z -> bool) (src : list Z),
   end.
 Proof. exact parse_total. Qed.
 Print Assumptions C12_parse_total.
+
+(** the identifier check on that path: Identifier.Validate transcribed as written - a loop over the
+    RUNES of the string (utf8 decoding, RuneError for ill-formed bytes, byte index i) calling the
+    comparison chains IsAlphaChar / IsNumChar - is, for EVERY byte list (so also for the arbitrary
+    string content that Parser.stringIdentifier passes to it), the byte-wise check [ident_valid]
+    used by [parse_bytes]; it contains no index operation, so C12_parse_total covers the quoted
+    attribute name of BA_DEF_ for all 256 byte values *)
+Theorem C12_validate_bytewise : forall id : list Z, validate id = ident_valid id.
+Proof. exact validate_bytewise. Qed.
+Print Assumptions C12_validate_bytewise.
 
 (** determinism: the outcome (kind, position, reason kind, definitions) is a function of the bytes *)
 Theorem C12_deterministic : forall (il id : Z -> bool) (src : list Z) o1 o2,
